@@ -42,12 +42,16 @@ BeyondTime(q, dur) ==
 \* getRetentionSettings + the percentage rule of BeyondSizeRetention
 EffLimit(c) == IF c.pctl > 0 /\ c.fsok THEN c.pctl ELSE c.maxb
 
-\* BeyondSizeRetention: blocksSize starts at Head().Size(); first block that makes it exceed maxBytes
+\* BeyondSizeRetention: blocksSize starts at Head().Size(); blocks that are parents of another given block
+\* or are marked deletable are skipped (they are removed by the same reload anyway and must not be counted
+\* twice -- fix ad17dfe350 of finding KF-C09-1); first counted block that makes the sum exceed maxBytes
+ParentIds(S) == UNION {b.parents : b \in S}
+Counted(q, i) == q[i].id \notin ParentIds({q[k] : k \in 1..Len(q)}) /\ ~q[i].flag
 RECURSIVE CumSize(_, _)
-CumSize(q, i) == IF i = 0 THEN 0 ELSE q[i].size + CumSize(q, i - 1)
+CumSize(q, i) == IF i = 0 THEN 0 ELSE (IF Counted(q, i) THEN q[i].size ELSE 0) + CumSize(q, i - 1)
 BeyondSize(q, h, lim) ==
   IF Len(q) = 0 \/ lim <= 0 THEN {}
-  ELSE LET I == {i \in 1..Len(q) : h + CumSize(q, i) > lim}
+  ELSE LET I == {i \in 1..Len(q) : Counted(q, i) /\ h + CumSize(q, i) > lim}
        IN IF I = {} THEN {} ELSE Suffix(q, CHOOSE i \in I : \A j \in I : i <= j)
 
 Deletable(S, h, c) ==
@@ -56,7 +60,6 @@ Deletable(S, h, c) ==
 
 \* reloadBlocks. Result: err (corrupted block without a loaded child: nothing is swapped or deleted),
 \* the ids to delete, the new db.blocks
-ParentIds(S) == UNION {b.parents : b \in S}
 ReloadRes(d, h, c) ==
   LET L    == Loadable(d)
       corr == Ids(d \ L) \ ParentIds(L)
@@ -108,15 +111,10 @@ RetentionOK(d, after, h, c) ==
   \* never a block strictly newer than a retained one
   /\ \A g \in gone, k \in S \ gone : ~(g.maxt > k.maxt)
 
-\* Known finding KF-C09-1: BeyondSizeRetention also adds up the blocks that the same reload removes as
-\* superseded parents (or as flagged empty leftovers), so right after a compaction parents and child
-\* are both counted and live blocks are deleted although what remains is well within the limit.
-KF_C09_1(d, after, h, c) ==
-  LET L == Loadable(d) IN
-  /\ EffLimit(c) > 0
-  /\ L \ Live(d) # {}                                                       \* there is something double counted
-  /\ after = {b \in d : b.id \notin ReloadRes(d, h, c).del}
-  /\ ~ReloadRes(d, h, c).err
+\* (Finding KF-C09-1, fixed by ad17dfe350: BeyondSizeRetention used to add up also the blocks that the same
+\* reload removes as superseded parents or as flagged leftovers, so that right after a compaction live blocks
+\* -- even the fresh child -- were deleted although what remained was within the limit. RetentionOK above is
+\* about Live(d) only, so a return of that behaviour is rejected, e.g. as "kept-run-not-longest".)
 
 \* which part of C09 a reload result breaks (signature of the verdict)
 Why(d, after, h, c) ==
